@@ -1,0 +1,30 @@
+//go:build verif
+
+// Package verifhook holds scheduling hooks used only by the deterministic
+// simulation harness. With the "verif" build tag the functions forward to
+// function variables the harness sets; nil means no-op.
+package verifhook
+
+var (
+	OnAcquire func(lock any, kind string, a, b uint64)
+	OnRelease func(lock any)
+	OnEvent   func(name string, kv ...any)
+)
+
+func Acquire(lock any, kind string, a, b uint64) {
+	if f := OnAcquire; f != nil {
+		f(lock, kind, a, b)
+	}
+}
+
+func Release(lock any) {
+	if f := OnRelease; f != nil {
+		f(lock)
+	}
+}
+
+func Event(name string, kv ...any) {
+	if f := OnEvent; f != nil {
+		f(name, kv...)
+	}
+}
